@@ -64,7 +64,8 @@ CONSTANTS DBs, Colls,       \* database / collection parts of specifications, "*
           MaxLive,          \* CDCServerConfig.MaxTaskNum
           WithRestart,
           SimPrint,         \* TRUE: print the plan from a final action (TLC -simulate evaluates invariants on ALL successors)
-          DelW, RestartW,   \* multiplicity of the delete (and step) / restart successors (only to balance TLC -simulate, 1 otherwise)
+          DelW, RestartW,   \* multiplicity of the delete / restart successors, their product that of the step successors
+                            \* (only to balance TLC -simulate, 1 otherwise)
           PartialOverlapChecked, ExcludeKept, UserRoleReverted, ReloadOrsUserRole,
           MaxFlight,        \* 0 = every request runs alone; k > 0 = up to k create requests in flight (Begin / Advance)
           RevertBySnapshot  \* negative control, see above (FALSE = the code)
@@ -241,7 +242,7 @@ Step ==
                /\ hist' = Append(hist, [op |-> "begin", db |-> n.db, coll |-> n.coll, via |-> v, map |-> mk,
                                         ur |-> ur, noauto |-> na, fault |-> f, tgt |-> t,
                                         adm |-> ~(Dup(t, n, ur) \/ BadMap(n, mk))])   \* (what the design expects; the driver ignores it)
-       \/ \E i \in InFlight, w \in 1..DelW :
+       \/ \E i \in InFlight, w \in 1..(DelW * RestartW) :
             /\ Advance(i)
             /\ hist' = Append(hist, [op |-> "step", req |-> i, w |-> w])
        \/ \E i \in Ids, f \in DelFaults, w \in 1..DelW :
